@@ -736,4 +736,44 @@ theorem tr_MatchFn (n : Nat) (g : Env) (H : Heap) (dm p f bs : GV) (hg : envGet 
   | ok r => obtain ⟨vs, h1⟩ := r; rfl
 
 
+/-! ## `copyMap` -/
+
+theorem find_copyMap : findFn matchProg "copyMap" = some matchProg_copyMap := by rfl
+
+theorem copyMap_loop (g : Env) (rb : GV) (L : Nat) (ty : String) (items : List (GV × GV)) :
+    ∀ (n : Nat) (done : List (GV × GV)) (H : Heap), heapGet H L = some { ty := ty, kvs := done } →
+    loopR (n + items.length + 8) matchProg g [("target", .ref L), ("source", rb)] H "" "p" "v" items
+        [GS.assign false [GL.index (GE.var "target") (GE.var "p")] [GE.var "v"]]
+      = .ok (.next, [("target", .ref L), ("source", rb)],
+             heapSet H L { ty := ty, kvs := items.foldl (fun acc kv => minsert kv.1 kv.2 acc) done }) := by
+  induction items with
+  | nil =>
+    intro n done H hH
+    simp [loopR]
+    exact (heapSet_self H L _ hH).symm
+  | cons it items ih =>
+    intro n done H hH
+    obtain ⟨ik, iv⟩ := it
+    have := ih n (minsert ik iv done) (heapSet H L { ty := ty, kvs := minsert ik iv done }) (heapGet_set_same H L _ _ hH)
+    simp [loopR, hH]
+    rw [show n + (items.length + 1) + 7 = n + items.length + 8 by omega, this, heapSet_set]
+
+/-- the translated `copyMap` (the candidate index of `arraycatMatch`): a new map object with the
+    entries of the given one; the given one is not written -/
+theorem tr_copyMap (n : Nat) (g : Env) (H : Heap) (a : Nat) (o : MapObj) (ho : heapGet H a = some o) :
+    callFn (n + o.kvs.length + 20) matchProg g "copyMap" .nil [.ref a] H =
+      .ok ([.ref H.length], H ++ [{ ty := "map[int]interface{}", kvs := o.kvs.foldl (fun acc kv => minsert kv.1 kv.2 acc) [] }]) := by
+  have hget : heapGet (H ++ [{ ty := "map[int]interface{}", kvs := [] }]) H.length = some { ty := "map[int]interface{}", kvs := [] } := by
+    simp [heapGet]
+  have hloop := copyMap_loop g (.ref a) H.length "map[int]interface{}" o.kvs (n + 8) [] (H ++ [{ ty := "map[int]interface{}", kvs := [] }]) hget
+  have hitems : rangeItems (H ++ [{ ty := "map[int]interface{}", kvs := [] }]) (.ref a) = some o.kvs := by
+    have : heapGet (H ++ [{ ty := "map[int]interface{}", kvs := [] }]) a = some o := heapGet_append _ ho
+    simp [rangeItems, this]
+  rw [show n + o.kvs.length + 20 = (n + o.kvs.length + 19) + 1 from rfl]
+  simp only [callFn, find_copyMap]
+  simp [-callFn, matchProg_copyMap, hitems]
+  rw [show n + o.kvs.length + 16 = n + 8 + o.kvs.length + 8 by omega, hloop]
+  simp [heapSet]
+
+
 end Sheens.TrMatch
